@@ -62,6 +62,8 @@ type ether struct {
 	// Delay draws the propagation delay of one announcement to one listener.
 	Delay  func() time.Duration
 	hidden map[string]bool
+	// Duplicates: items are delivered twice now and then
+	Duplicates bool
 	// Down: the multicast medium is unusable (announcements are lost)
 	Down atomic.Bool
 }
@@ -192,6 +194,21 @@ func (e *ether) send(q *etherProvider, it etherItem) {
 	what := "add"
 	if it.remove {
 		what = "remove"
+	}
+	if e.Duplicates && e.x.S.ChooseBiased("mdns-dup", 4, 0.7) == 1 {
+		// multicast answers are repeated: the same item once more, a little later
+		e.x.S.Fault("mdns-duplicate")
+		e.x.S.After(e.Delay()+50*time.Millisecond, fmt.Sprintf("mdns %s %s -> %s (dup)", what, it.name, q.node), "mdns:"+q.node, func() {
+			q.mu.Lock()
+			if q.started {
+				q.queue = append(q.queue, it)
+			}
+			q.mu.Unlock()
+			select {
+			case q.wake <- struct{}{}:
+			default:
+			}
+		})
 	}
 	e.x.S.After(e.Delay(), fmt.Sprintf("mdns %s %s -> %s", what, it.name, q.node), "mdns:"+q.node, func() {
 		q.mu.Lock()
@@ -492,6 +509,9 @@ func nodeOfLabel(l string) string {
 
 func newHubRig(x *Ctx) *hubRig {
 	r := &hubRig{x: x, eth: newEther(x), nodes: map[string]*hubNode{}, prod: map[*api.ConnectionStateDetail]int{}, connIDs: map[any]int{}, provBySKI: map[string]*etherProvider{}}
+	if x.Feat(FeatNetVariety) && x.Spec.Prop != "C20" {
+		r.eth.Duplicates = x.Chance("mdns-duplicates", 0.25)
+	}
 	if x.forceDual {
 		r.dualStack, r.hostUnresolvable = true, x.forceHostUnres
 	} else if x.Feat(FeatDualStack) && x.Chance("dual-stack", 0.3) {
